@@ -275,7 +275,7 @@ def long_cases(rng, n):
         content = []
         while lines:
             m = rng.randint(3, 8)
-            content.append(dict(sp=dict(nored=False, noobf=[], width=False), lines=lines[:m]))
+            content.append(dict(sp=dict(nored=False, noobf=[], width=False, allow=0), lines=lines[:m]))
             lines = lines[m:]
         cf = dict(obf=True, host=True, mac=True, kws=list(range(1, N + 1)) if "kw" in kinds else [], pats=[],
                   regex=False, sysdom=True, fam="plain")
@@ -503,7 +503,7 @@ def replay(prop, path):
         traces = [t for t in out["traces"] if t["id"] == tid]
     else:
         K = 16 if rp.get("tier", "quick") == "quick" else 64
-        case["paths"] = ["content", "provider"]
+        case["paths"] = ["content", "filterprovider" if any(sp["sp"].get("allow") for sp in case["content"]) else "provider"]
         outs = lib.run_driver_parallel("drive_cleaner.py", [dict(mode="runs", cases=[case], seed=seed,
                                                                  tmp=os.path.join(tmp, "hs%d" % k)) for k in range(K)],
                                        hashseeds=list(range(K)))
